@@ -296,6 +296,17 @@ func c05GenDB(r *Rng, tier string) []c05Cmd {
 			db = append(db, c05RandCmd(r))
 		}
 	}
+	if r.Chance(1, 6) {
+		// a crowd of entries sharing the words of one stock query: more candidates than the smallest re-rank
+		// window (10), so that answers for different limits are NOT prefixes of one another under NLP
+		w := strings.Fields(Pick(r, c05Queries[:8]))
+		for i, m := 0, r.Range(12, 22); i < m; i++ {
+			c := c05RandCmd(r)
+			c.Description = strings.Join(w, " ") + " " + c.Description
+			c.Plat = nil
+			db = append(db, c)
+		}
+	}
 	for i := len(db) - 1; i > 0; i-- {
 		j := r.Intn(i + 1)
 		db[i], db[j] = db[j], db[i]
@@ -305,7 +316,9 @@ func c05GenDB(r *Rng, tier string) []c05Cmd {
 
 func c05MutateDB(r *Rng, db []c05Cmd, tier string) []c05Cmd {
 	out := append([]c05Cmd{}, db...)
-	switch r.Intn(7) {
+	switch r.Intn(8) {
+	case 7: // replaced by the empty list (then usually refilled by a later update)
+		return nil
 	case 0: // identical content
 	case 1:
 		if len(out) > 0 {
